@@ -56,9 +56,27 @@ type MapV struct {
 	ValT types.Type
 }
 
+// ListV: *list.List with a concrete number of slots; slot i holds an element iff Conds[i] (nil = always).
 type ListV struct {
 	Elems []Value
+	Conds []*Term
 	Nil   bool
+}
+
+func (l *ListV) cond(i int) *Term {
+	if l.Conds == nil || l.Conds[i] == nil {
+		return tTrue
+	}
+	return l.Conds[i]
+}
+
+func (l *ListV) allPresent() bool {
+	for i := range l.Elems {
+		if !l.cond(i).isTrue() {
+			return false
+		}
+	}
+	return true
 }
 
 type ElemV struct {
@@ -173,14 +191,29 @@ func mergeValues(c *Term, a, b Value) Value {
 			if x == y {
 				return x
 			}
-			if x.Nil == y.Nil && len(x.Elems) == len(y.Elems) {
-				r := &ListV{Nil: x.Nil, Elems: make([]Value, len(x.Elems))}
-				for i := range x.Elems {
-					r.Elems[i] = mergeValues(c, x.Elems[i], y.Elems[i])
-				}
-				return r
+			if x.Nil != y.Nil {
+				unsup("merge of nil and non-nil list")
 			}
-			unsup("merge of lists of different length (%d vs %d)", len(x.Elems), len(y.Elems))
+			// positional merge: under c the list is x, otherwise y
+			n := len(x.Elems)
+			if len(y.Elems) > n {
+				n = len(y.Elems)
+			}
+			r := &ListV{Nil: x.Nil, Elems: make([]Value, n), Conds: make([]*Term, n)}
+			for i := 0; i < n; i++ {
+				switch {
+				case i < len(x.Elems) && i < len(y.Elems):
+					r.Elems[i] = mergeValues(c, x.Elems[i], y.Elems[i])
+					r.Conds[i] = mkIte(c, x.cond(i), y.cond(i))
+				case i < len(x.Elems):
+					r.Elems[i] = x.Elems[i]
+					r.Conds[i] = mkAnd(c, x.cond(i))
+				default:
+					r.Elems[i] = y.Elems[i]
+					r.Conds[i] = mkAnd(mkNot(c), y.cond(i))
+				}
+			}
+			return r
 		}
 	case *ElemV:
 		if y, ok := b.(*ElemV); ok {
@@ -213,6 +246,16 @@ func mergeValues(c *Term, a, b Value) Value {
 		}
 	case OpaqueV:
 		return x
+	case *BoxV:
+		if y, ok := b.(*BoxV); ok {
+			if x == y {
+				return x
+			}
+			if types.Identical(x.T, y.T) {
+				return &BoxV{V: mergeValues(c, x.V, y.V), T: x.T}
+			}
+			unsup("merge of interface values with different dynamic types (%s, %s)", x.T, y.T)
+		}
 	case *TupleV:
 		if y, ok := b.(*TupleV); ok && len(x.Vs) == len(y.Vs) {
 			r := &TupleV{Vs: make([]Value, len(x.Vs))}
